@@ -21,11 +21,33 @@ func Transpile(elkRegex string, flags bitfield.BitField8) (string, diagnostic.Di
 	}
 
 	t := &transpiler{Flags: flags}
+	t.globalFlags(flags)
 	t.transpileNode(ast)
 	if t.Errors != nil {
 		return "", t.Errors
 	}
 	return t.Buffer.String(), nil
+}
+
+// Emit the flags of the regex literal that are understood
+// by Go (`i`, `m`, `s`, `U`) as a leading `(?imsU)` so that they
+// apply to the whole pattern. The remaining flags (`x`, `a`)
+// are handled by the transpiler itself.
+func (t *transpiler) globalFlags(flags bitfield.BitField8) {
+	var visible bool
+	for _, fl := range flag.Flags {
+		if !flags.HasFlag(fl) || !flag.IsSupportedByGo(fl) {
+			continue
+		}
+		if !visible {
+			t.Buffer.WriteString("(?")
+			visible = true
+		}
+		t.Buffer.WriteRune(flag.ToChar(fl))
+	}
+	if visible {
+		t.Buffer.WriteRune(')')
+	}
 }
 
 // Transpiler mode
